@@ -80,6 +80,12 @@ pub fn c03(tier: Tier) -> Vec<Case> {
         // marked in one occurrence only: the box must stick to the type
         choice(vec![seq(vec![lit("a"), bfield("r", "R")]), seq(vec![lit("b"), field("r", "R"), lit("c")]), lit("d")]),
         seq(vec![lit("a"), opt(field("e", "E"))]),
+        // marked in a LATER occurrence only
+        choice(vec![seq(vec![lit("b"), field("r", "X"), lit("c")]), seq(vec![lit("a"), bfield("r", "X")]), lit("d")]),
+        choice(vec![seq(vec![lit("("), field("r", "R"), lit(")")]), seq(vec![lit("["), bfield("r", "R"), lit("]")]), lit("x")]),
+        seq(vec![field("p", "X"), lit(","), bfield("p", "X")]),
+        choice(vec![seq(vec![lit("a"), field("p", "X")]), seq(vec![lit("b"), field("p", "Y")]), seq(vec![lit("c"), bfield("p", "X")])]),
+        seq(vec![opt(field("p", "X")), star(seq(vec![lit(","), bfield("p", "X")]))]),
     ];
     for body in rec_bodies {
         for extra in [vec![], vec![Directive::Position], vec![Directive::Memoize], vec![Directive::Leftrec]] {
